@@ -55,7 +55,9 @@ P = {
        "admissible, the reported score is exactly its MinorSpec score, and no admissible assignment over the instance's copies scores lower; proved "
        "through C04_minor_point_spec: every feasible point denotes an admissible assignment with score <= objective, and C04_minor_spec_point: every "
        "admissible assignment is realised by a feasible point with objective = score; side conditions inst_wf and minor_phase >= 0 are evaluated on "
-       "every instance of every run); the shipped homozygous read-out is modelled with a variant switch and REFUTED for "
+       "every instance of every run); the NOISE-FREE clause (C04_minor_noise_free: if the planted assignment scores 0, every minimiser of the ILP "
+       "denotes an admissible assignment that carries each variant exactly as often as observed = as often as planted, drops nothing and adds "
+       "nothing; decidable premise noise_free_b evaluated on every noise-free case generated); the shipped homozygous read-out is modelled with a variant switch and REFUTED for "
        "'one per site' and 'score of the reported assignment' by vm_compute witnesses (known findings). " + TIE + "Structural LP tie (row by row) and "
        "behavioural tie (estimate_minor solutions/scores vs MinorSpec exhaustive enumeration) on generated instances incl. phase records.",
   note=TRUST + "CBC oracle (C05 contract). Read-out defects are listed in known_findings.json (open).",
